@@ -61,6 +61,10 @@ claims = {
  'C12': dict(engine='explore', cat='model_checking', ref='DESIGN.md §3 C12',
    text="Stateless model checking on the real implementation with a virtual clock: (a) every blocking command with timeouts 0.001, 0.5, 1, 1e6, 1e10 s and 0 - completion exactly at t in virtual time, never for 0; (b) CLIENT UNBLOCK [TIMEOUT|ERROR] released at every scheduling point of the target's block protocol, alone and racing a push: answer 1 => the target ends with null / UNBLOCKED and took no element, answer 0 => the target is not aborted, other clients unaffected; (c) CLIENT KILL of a blocked client, later pushes go to live consumers; (d) repeated block / unblock / timeout / push cycles on one connection with fully determined replies; (e) all five blocking commands inside MULTI return at once. All schedules with at most 3 / 4 preemptions or deviations.",
    note='Trusted: the cooperative scheduler shim and the instrumenter that routes every lock, atomic, channel operation, select, sleep and timer of the emulator through it (build-time overlay, no hand-placed hooks); virtual time only moves when nothing else can run or when the explorer chooses to fire a timer. Not covered: more preemptions/deviations than the bound, more connections than the scenarios have. Closing the peer socket of a blocked connection is covered by the socket-level scenarios of C20.', tech="stateless model checking: exhaustive schedule enumeration with preemption/deviation bounding, virtual time"),
+ 'C16': dict(engine='explore-race', cat='model_checking', ref='DESIGN.md §2.3, §3 C16',
+   text="Schedule exploration in a -race build: ~2200 (quick) / ~8000 (thorough) scenarios - every (thorough) or a quarter plus all self pairs (quick) of the unordered pairs of 118 command templates, one per handler, on colliding keys; connection set-up / tear-down, the saver (dataStoreSet.save on an in-memory file system) against every template; EXEC with a queue and a blocked BLPOP against every second template; CLIENT UNBLOCK / KILL / LIST against blocked clients; SELECT / FLUSHALL / DBSIZE - each explored over all thread schedules with at most 1 (quick) / 2 (thorough) preemptions. The scheduler's hand-offs are hidden from the race detector (RaceDisable around the hand-off, bookkeeping in go:norace functions) while every shim primitive reports the program's own synchronisation (lock = acquire, unlock = release, channel send -> receive, atomics), so the detector judges the emulator's happens-before relation on exactly the schedule the explorer chose: both lock orders of every pair are covered, which a free-running stress test only meets by luck.",
+   note="Trusted: the Go race detector; the RaceDisable / RaceAcquire / RaceRelease annotations of the shims. Only reports whose both accesses lie in emulator code count (not inside shims / harness, not while a thread is being torn down at the end of an execution). Socket-level connection goroutines are covered by the C20 scenarios, which also run in this build in the thorough tier.",
+   tech="stateless schedule enumeration with preemption bounding on the real code; per-schedule verdict by the Go race detector (happens-before)"),
 }
 pending_reason = "check not built yet (work in progress in this session; see DESIGN.md build order)"
 
@@ -91,6 +95,7 @@ manifest = {
  },
  "engines": [
    {"name": "explore", "path": "checks/mc/explore.go", "serves_properties": ["C08", "C09", "C11", "C12"], "kind_free_text": "E2: controlled scheduler + DFS by prefix replay, iterative preemption bounding, 16 worker processes"},
+   {"name": "explore-race", "path": "checks/mc/racecheck.go", "serves_properties": ["C16"], "kind_free_text": "E2 in a -race build with detector-invisible scheduler hand-offs"},
    {"name": "c15", "path": "checks/mc/c15.go", "serves_properties": ["C15"], "kind_free_text": "RESP2/RESP3 differential enumeration + HELLO state space"},
    {"name": "scan", "path": "checks/mc/scan.go", "serves_properties": ["C17"], "kind_free_text": "history enumeration for the SCAN family"},
    {"name": "seq", "path": "checks/mc/seq.go", "serves_properties": [i for i in ids if claims.get(i,{}).get('engine')=='seq'], "kind_free_text": "E1: explicit-state BFS over model states, transitions replayed on the implementation (16 worker processes)"},
